@@ -6,7 +6,7 @@
    algorithm, .changes file lines).  A changed or dropped tag makes the corresponding lemma fail to compile. *)
 From Coq Require Import List Ascii String Bool Arith NArith ZArith Lia.
 Require Import SchemaDefs Schema_gen.
-Require GS R2 L10 L12 L13 ACC C9G CX CX2.
+Require GS R2 R2u L10 L12 L13 ACC C9G CX CX2 C10E.
 Import ListNotations.
 
 Lemma C10_dsc_schema_ok : schema_ok dsc_schema dsc_table = true.
@@ -34,6 +34,18 @@ Theorem C10_decode_pointwise : forall sch p r,
   Forall2 (C9G.field_spec CX.fd CX.cval CX.czero CX.cdecode p) (CX.gschema sch) r.
 Proof. exact CX.CX_decode_pointwise. Qed.
 Print Assumptions C10_decode_pointwise.
+
+(* the document level: the typed parser applied to a text is the field-by-field decoder applied to the first paragraph
+   the deb822 reader (C07) returns for it; a required field absent from that paragraph makes it fail *)
+Theorem C10_document : forall sch text p ps r, Forall R2u.uclean (GS.lines_of text) -> R2.read_all text = Some (p :: ps) ->
+  (CX.decode_text sch text = Some r <->
+   Forall2 (C9G.field_spec CX.fd CX.cval CX.czero CX.cdecode (R2.values p)) (CX.gschema sch) r).
+Proof. exact C10E.C10_document. Qed.
+Theorem C10_required_field_missing : forall sch text p ps f, Forall R2u.uclean (GS.lines_of text) -> R2.read_all text = Some (p :: ps) ->
+  In f (CX.gschema sch) -> C9G.frequired CX.fd f = true -> C9G.lookup (C9G.fkey CX.fd f) (R2.values p) = None ->
+  CX.decode_text sch text = None.
+Proof. exact C10E.C10_required_field_missing. Qed.
+Print Assumptions C10_document.
 
 (* list fields: a delimiter outside the strip set; items = (blanks, element, blanks) joined by the delimiter,
    blanks being stripped characters such as the newline and space of a folded field *)
